@@ -89,6 +89,9 @@ func checkC08(p *Program, r *Report) {
 	ws, _ := analyseSegmentWriter(p)
 	rs, _ := analyseSegmentReader(p)
 	c06Trace(r, ws, rs)
+	// ... and both sides act on one signal for "stored as is"
+	c06DecodeDecision(r, rs)
+	c06EncodeDecision(r, ws)
 }
 
 func c08Rules(p *Program, r *Report) {
